@@ -55,12 +55,16 @@ Definition run_k (c : kcase) : list N :=
   end.
 
 (* plan verdicts observed on whole generation runs (collision experiments) *)
-Record pcase := { p_tbl : list (rune * uinfo); p_ops : list opspec; p_defs : list runes; p_props : list runes; p_ok : bool }.
+Record pcase := { p_tbl : list (rune * uinfo); p_ops : list opspec; p_defs : list runes; p_props : list runes; p_ok : bool;
+                  p_pkgs : pkg_tbl; p_cli_ok : bool }.
 Definition is_some {A} (o : option A) : bool := match o with Some _ => true | None => false end.
+(* p_ok: server, client and models were generated; p_cli_ok: the cli too (it has one package for all commands) *)
 Definition run_p (c : pcase) : list N :=
   let u := table_uni (p_tbl c) in
-  let ok := is_some (plan_ops u (sort_ops u (p_ops c))) && is_some (plan_defs u (p_defs c)) && is_some (plan_props u (p_props c)) in
-  if Bool.eqb ok (p_ok c) then [] else [1%N].
+  let rest := is_some (plan_defs u (p_defs c)) && is_some (plan_props u (p_props c)) in
+  let ok := is_some (plan_ops_pkg u (p_pkgs c) false (sort_ops u (p_ops c))) && rest in
+  let ok_cli := is_some (plan_ops_pkg u (p_pkgs c) true (sort_ops u (p_ops c))) && rest in
+  (if Bool.eqb ok (p_ok c) then [] else [1%N]) ++ (if Bool.eqb ok_cli (p_cli_ok c) then [] else [3%N]).
 
 (* renameTimeout through paramMappings: distinct parameter names -> the private timeout field of the client params struct *)
 Record tcase := { t_tbl : list (rune * uinfo); t_params : list runes; t_timeout : runes }.
